@@ -11,7 +11,7 @@ use std::collections::{BTreeMap, BTreeSet};
 
 pub const TEXTS: &[&str] = &[
     "I like my tset.",
-    "This is an tset of teh thing.",
+    "This is an tset of teh colour. See [the lnk](http://x.co) now.\n\nCeci n'est pas du tout une phrase en anglais.",
     "All is fine here.",
     "Ünï 😀 teh tset.\nSecond line an apple",
     "The tset and thw met naïvité, O'Brienx and ŁÓDŹx in an hour.",
@@ -38,7 +38,16 @@ pub enum Op {
     Shutdown,
 }
 
-pub const CONFIGS: &[&str] = &[r#"{}"#, r#"{"SpellCheck": false}"#, r#"{"AnA": false}"#];
+pub const CONFIGS: &[&str] = &[r#"{}"#, r#"{"SpellCheck": false}"#, r#"{"AnA": false}"#, r#"{}"#];
+/// the other settings of each configuration: (dialect, isolateEnglish, markdown.IgnoreLinkTitle)
+pub const CONFIG_EXTRAS: &[(&str, bool, bool)] = &[("American", false, false), ("American", false, false), ("British", false, true), ("American", true, false)];
+
+pub fn dialect_of(cfg: usize) -> Dialect {
+    match CONFIG_EXTRAS[cfg].0 {
+        "British" => Dialect::British,
+        _ => Dialect::American,
+    }
+}
 
 #[derive(Clone, Debug)]
 pub struct ClientDoc {
@@ -106,6 +115,16 @@ pub fn parser_for(lang: &str) -> Box<dyn Parser> {
     }
 }
 
+/// The parser the server composes for `lang` under configuration `cfg`.
+pub fn parser_for_cfg(lang: &str, cfg: usize, dict: std::sync::Arc<harper_core::MergedDictionary>) -> Box<dyn Parser> {
+    let (_, isolate, ilt) = CONFIG_EXTRAS[cfg];
+    let base: Box<dyn Parser> = match lang {
+        "markdown" => Box::new(Markdown::new(crate::frontends::md_opts(ilt))),
+        _ => Box::new(PlainEnglish),
+    };
+    if isolate { Box::new(harper_core::parsers::IsolateEnglish::new(base, dict)) } else { base }
+}
+
 /// Fresh reference lints: curated + given words, configuration = curated overlaid by user choices.
 pub fn ref_lints(text: &str, lang: &str, words: &BTreeSet<String>, cfg: usize, ignored: &[(String, Lint)]) -> Vec<Lint> {
     let dict = crate::e2::ref_dict(words);
@@ -118,9 +137,9 @@ pub fn ref_lints(text: &str, lang: &str, words: &BTreeSet<String>, cfg: usize, i
         let group = g.entry(key).or_insert_with(|| {
             let mut c = lint_cfg(cfg);
             c.fill_with_curated();
-            LintGroup::new_curated(dict.clone(), Dialect::American).with_lint_config(c)
+            LintGroup::new_curated(dict.clone(), dialect_of(cfg)).with_lint_config(c)
         });
-        let parser = parser_for(lang);
+        let parser = parser_for_cfg(lang, cfg, dict.clone());
         let doc = Document::new(text, &parser, &dict);
         let mut nonce = REF_NONCE.with(|n| n.get());
         let mut lints = crate::c12::lint_uncached(group, &doc, &mut nonce);
@@ -177,7 +196,7 @@ impl Session {
         let world = World::new(tag);
         // doc A exists on disk with content that differs from every buffer text
         std::fs::write(world.doc_path("a.md"), "Disk content with a wrod.\n").map_err(|e| e.to_string())?;
-        let settings = world.settings(serde_json::from_str(CONFIGS[0]).unwrap(), "American");
+        let settings = world.settings_for(0);
         let mut server = Server::new(world.config(), settings);
         server.boot()?;
         Ok(Self { world, server, client: Client::new() })
@@ -198,7 +217,7 @@ impl Session {
     /// Server restart: a new server process on the same directories; the editor re-sends didOpen
     /// for every buffer it has open.
     pub fn restart(&mut self) -> Result<(), String> {
-        let settings = self.world.settings(serde_json::from_str(CONFIGS[self.client.config]).unwrap(), "American");
+        let settings = self.world.settings_for(self.client.config);
         self.server = Server::new(self.world.config(), settings);
         self.server.boot()?;
         for i in self.client.ignored.iter_mut() {
@@ -305,7 +324,7 @@ impl Session {
             }
             Op::Config(c) => {
                 self.client.config = *c;
-                let settings = self.world.settings(serde_json::from_str(CONFIGS[*c]).unwrap(), "American");
+                let settings = self.world.settings_for(*c);
                 self.server.settings = settings.clone();
                 let req = Server::notification("workspace/didChangeConfiguration", json!({"settings": settings}));
                 self.server.enqueue(&label, req);
@@ -395,6 +414,8 @@ pub fn ops() -> Vec<Op> {
         Op::AddUser(1, "teh"),
         Op::Config(1),
         Op::Config(0),
+        Op::Config(2),
+        Op::Config(3),
         Op::Delete(0),
         Op::CodeAction(0),
         Op::Shutdown,
